@@ -167,7 +167,13 @@ func runC02Stall(s *kernel.Sim) {
 var srcAddrs = []string{"10.1.2.3:5555", "[2001:db8::7]:4444", "host.example.org:3333", "[::1]:2222", "203.0.113.9:1", "[fe80::1]:9", ":7777", "[::]:8888", "0.0.0.0:9999", "[fe80::1%eth0]:51234", "[fe80::5%abc0]:6"}
 
 func overrides(a, other *Actor, pick int) string {
-	switch pick % 22 {
+	switch pick % 25 {
+	case 22:
+		return "enode://" + a.ID + "@198.51.100.4:99999" // not a port: nobody can dial that
+	case 23:
+		return "enode://" + a.ID + "@198.51.100.4:0"
+	case 24:
+		return "enode://" + a.ID + "@[2001:db8::43]:65536"
 	case 20:
 		return "enode://" + a.ID + "@2001:db8::42" // IPv6 address without brackets: what the agent's --node-host / --enode.host produce for it
 	case 21:
@@ -332,7 +338,7 @@ func runWorldSeq(s *kernel.Sim, p profile) {
 					payout = a.Wallet.Addr
 				}
 				if p.uriOverrides && a.IsHost {
-					ov = overrides(a, anyActor(), d.choose("override", 22))
+					ov = overrides(a, anyActor(), d.choose("override", 25))
 				}
 				d.Connect(a, payout, ov, false)
 			case 2: // keep-alive
@@ -420,7 +426,7 @@ func runWorldSeq(s *kernel.Sim, p profile) {
 				if a.IsHost {
 					ov := ""
 					if p.uriOverrides {
-						ov = overrides(a, anyActor(), d.choose("override", 22))
+						ov = overrides(a, anyActor(), d.choose("override", 25))
 					}
 					d.Connect(a, "", ov, true)
 				} else {
